@@ -107,7 +107,7 @@ def correspond(ctx, scale):
                     cases.append(f'decode_batch_check 0 [{qmat(cbs[h])}] {d}%nat [{"; ".join(sub)}]')
                     meta.append(dict(kind='vq-decode', kw=kw, head=h))
     # ------------------------------------------------------------------ residual stacks: all depths of dropout, every coarse prefix, -1
-    def residual_roundtrip(name, mk, dim, layouts, exact_eval, has_freeze, prefix_ok=True):
+    def residual_roundtrip(name, mk, dim, layouts, exact_eval, has_freeze, prefix_ok=True, masked=False):
         nonlocal ev, nt
         for layout in layouts:
             for rep in range(reps):
@@ -155,6 +155,11 @@ def correspond(ctx, scale):
                             kwargs['freeze_codebook'] = True
                         if not name.startswith('g'):
                             kwargs['rand_quantize_dropout_fixed_seed'] = rng.randrange(10000)
+                    if masked:
+                        # ragged padding mask: padded positions carry index -1 and decode to the image of zero under the output projection
+                        bb, nn2 = x.shape[0], x.shape[1]
+                        mk_ = torch.arange(nn2)[None, :] < torch.tensor([max(1, nn2 - 1 - (i % 2)) for i in range(bb)])[:, None]
+                        kwargs['mask'] = mk_
                     ev += 1
                     bump(name)
                     key = f'{name}:layout={layout}:mode={mode}'
@@ -201,6 +206,9 @@ def correspond(ctx, scale):
     residual_roundtrip('rvq-shared', lambda lay: ResidualVQ(dim=3, num_quantizers=3, codebook_size=5, shared_codebook=True, quantize_dropout=True), 3, ('seq',), False, True)
     residual_roundtrip('rvq-implicit', lambda lay: ResidualVQ(dim=3, num_quantizers=3, codebook_size=4, implicit_neural_codebook=True, mlp_kwargs=dict(dim_hidden=4, depth=1), quantize_dropout=True), 3, ('seq',), False, True, prefix_ok=False)
     residual_roundtrip('rvq-proj', lambda lay: ResidualVQ(dim=4, codebook_dim=2, num_quantizers=2, codebook_size=5, quantize_dropout=True), 4, ('seq',), False, True)
+    residual_roundtrip('rvq-proj-mask', lambda lay: ResidualVQ(dim=4, codebook_dim=2, num_quantizers=2, codebook_size=5, quantize_dropout=True), 4, ('seq',), False, True, masked=True)
+    residual_roundtrip('grvq-proj-mask', lambda lay: GroupedResidualVQ(dim=6, groups=2, codebook_dim=2, num_quantizers=2, codebook_size=5, quantize_dropout=True), 6, ('seq',), False, True, masked=True)
+    residual_roundtrip('grvq-mask', lambda lay: GroupedResidualVQ(dim=4, groups=2, num_quantizers=2, codebook_size=5), 4, ('seq',), False, True, masked=True)
     residual_roundtrip('grvq', lambda lay: GroupedResidualVQ(dim=4, groups=2, num_quantizers=2, codebook_size=5, quantize_dropout=True, accept_image_fmap=(lay == 'image')), 4, ('seq', 'image'), False, True)
     residual_roundtrip('rfsq', lambda lay: ResidualFSQ(levels=[5, 3], num_quantizers=3, dim=2, quantize_dropout=True, is_channel_first=(lay != 'seq')), 2, ('seq', 'cfirst', 'image'), True, False)
     residual_roundtrip('rfsq-proj', lambda lay: ResidualFSQ(levels=[4, 3], num_quantizers=2, dim=4, quantize_dropout=True), 4, ('seq',), False, False)
